@@ -694,3 +694,41 @@ func VerifC04LazyPanic() {
 	vquiesce()
 	vassert(e != nil, "a producer that panics while a chunk is pulled is reported as an error by "+c04ParNames[p]+" (at call time or as an error item)")
 }
+
+// thorough tier: chains of three nodes with every triple of single native paradigms (64), optional failing node,
+// three input chunks
+func VerifC04Chain3() {
+	ctx := context.Background()
+	vcfg("fifo", 1)
+	n1 := 1 << vchoose("native1", 4)
+	n2 := 1 << vchoose("native2", 4)
+	n3 := 1 << vchoose("native3", 4)
+	fail := vchoose("fail", 4) // 0 none, k: the k-th node
+	theErr := c04Err
+	if fail != 0 && vchoose("errkind", 2) == 1 {
+		theErr = c04WrappedEOF
+	}
+	f1, f2, f3 := c04Fn{name: "f1", fail: fail == 1, err: theErr}, c04Fn{name: "f2", fail: fail == 2, err: theErr}, c04Fn{name: "f3", fail: fail == 3, err: theErr}
+	g := NewGraph[string, string]()
+	_ = g.AddLambdaNode("n1", f1.lambda(n1))
+	_ = g.AddLambdaNode("n2", f2.lambda(n2))
+	_ = g.AddLambdaNode("n3", f3.lambda(n3))
+	_ = g.AddEdge(START, "n1")
+	_ = g.AddEdge("n1", "n2")
+	_ = g.AddEdge("n2", "n3")
+	_ = g.AddEdge("n3", END)
+	var opts []GraphCompileOption
+	if vchoose("dag", 2) == 1 {
+		opts = append(opts, WithNodeTriggerMode(AllPredecessor))
+	}
+	r, err := g.Compile(ctx, opts...)
+	vassert(err == nil, "chain compiles")
+	c04AgreeErr(r, fail != 0, theErr, "chain of three nodes")
+	if fail == 0 {
+		a, b, c := vsymStr("x"), vsymStr("y"), vsymStr("z")
+		o, e := r.Invoke(ctx, a+b+c)
+		vassert(e == nil && o == f3.F(f2.F(f1.F(a+b+c))), "Invoke is the composition of the node functions")
+		o3, e3 := r.Collect(ctx, schema.StreamReaderFromArray([]string{a, b, c}))
+		vassert(e3 == nil && o3 == o, "Collect of three input chunks equals Invoke of their concatenation")
+	}
+}
